@@ -313,8 +313,8 @@ pub fn monitor(tier: Tier) -> Monitor {
             "size-bounded streams that also carry a marker are excluded (where the payload ends is ambiguous)".into(),
         ],
         families: vec![
-            Family { name: "lzma", count: tier.pick(8_000, 300_000), priority: false, enumerated: false, run: fam_lzma },
-            Family { name: "lzma2", count: tier.pick(6_000, 200_000), priority: false, enumerated: false, run: fam_lzma2 },
+            Family { name: "lzma", count: tier.pick(40_000, 800_000), priority: false, enumerated: false, run: fam_lzma },
+            Family { name: "lzma2", count: tier.pick(30_000, 600_000), priority: false, enumerated: false, run: fam_lzma2 },
         ],
         label,
         floors,
